@@ -104,7 +104,23 @@ func (r *RunResult) noteCover(e *Engine, st *State, label string) {
 
 func (e *Engine) ensureModel(st *State) {
 	if st.model != nil {
-		return
+		// self-check: the cached model must satisfy the whole path condition
+		memo := map[int]uint64{}
+		okAll := true
+		for _, c := range st.pc {
+			if e.ts.Eval(c, st.model, memo) == 0 {
+				okAll = false
+				break
+			}
+		}
+		if okAll {
+			return
+		}
+		e.res.PathStatus["stale-model-repaired"]++
+		if os.Getenv("VERIF_DEBUG_MODEL") != "" {
+			fmt.Fprintf(os.Stderr, "stale model at %s\n", e.where(st))
+		}
+		st.model = nil
 	}
 	res, m := e.sol.Check(st.pc, true)
 	if res == Sat {
